@@ -32,6 +32,7 @@ Values (hashable tuples):
 from __future__ import annotations
 
 import ast
+import os
 import string
 import textwrap
 
@@ -2206,10 +2207,62 @@ class AV:
             if origin and not origin.startswith("gotranx"):
                 nm = canon_sym(origin)
             v = ("call", nm, args, kwargs_t)
+        v = self._conventional(v, callee)
         if ret_nt is not None:
             self.nt_of[v] = ret_nt
         self.call_log.append((fr.func, n, v))
         return v
+
+    def _conventional(self, v, callee):
+        """A call of a package function that is not expanded is written the way the vetted tree writes it: the parameters it
+        passes by position are positional, those it passes by keyword are keywords (`g(a, b)` and `g(x=a, y=b)` are one
+        call; sa/alpha.py, anchors.json `conventions`)."""
+        if os.environ.get("VERIF_NO_ALPHA") or v[0] not in ("call", "mcall"):
+            return v
+        name = (v[1] if v[0] == "call" else v[2]).split(".")[-1]
+        conv = self._conventions().get(name)
+        if conv is None:
+            return v
+        args, kwargs = (v[2], v[3]) if v[0] == "call" else (v[3], v[4])
+        if any(a_[0] == "spread" for a_ in args) or any(k == "**" for k, _ in kwargs):
+            return v
+        # today's signature: of the resolved callee, else of the one function of that name
+        f = callee
+        if f is None:
+            cands = [g for g in self.sm.all_funcs() if g.name == name]
+            f = cands[0] if len(cands) == 1 else None
+        if f is None or f.node.args.vararg or f.node.args.posonlyargs:
+            return v
+        params = [x.arg for x in f.node.args.args]
+        if "." in f.qualname and params and params[0] in ("self", "cls") and not _is_static(f):
+            params = params[1:]
+        if len(args) > len(params):
+            return v
+        bound = dict(zip(params, args))
+        for k, val in kwargs:
+            if k in bound:
+                return v
+            bound[k] = val
+        new_args, new_kw = [], []
+        positional_ok = True
+        for p_ in params:
+            if p_ not in bound:
+                positional_ok = False
+                continue
+            want_pos = p_ in conv["pos"] or (p_ not in conv["kw"] and p_ in dict(zip(params, args)))
+            if want_pos and positional_ok:
+                new_args.append(bound[p_])
+            else:
+                positional_ok = False
+                new_kw.append((p_, bound[p_]))
+        new_kw += [(k, val) for k, val in kwargs if k not in params]
+        new_kw_t = tuple(sorted(new_kw, key=lambda kv: kv[0]))
+        return ("call", v[1], tuple(new_args), new_kw_t) if v[0] == "call" else ("mcall", v[1], v[2], tuple(new_args), new_kw_t)
+
+    def _conventions(self) -> dict:
+        from . import alpha
+
+        return alpha.table().get("conventions", {})
 
     def _builtin(self, n: ast.Call, d_, args, kwargs, fr: Frame):
         # {k1: v1, ...}.get(key, default) on a table of constant keys is a chain of comparisons
